@@ -537,3 +537,114 @@ Proof.
     + rewrite <- !app_assoc. rewrite (strip_set_hit fl _ _ asg _ _ CS E). reflexivity.
     + cbn [app]. rewrite (strip_set_plain fl asg _ _ E H2). rewrite (strip_span fl asg _ _ E). reflexivity.
 Qed.
+
+(* ------------------------------------------------------------------ all clauses, in any order *)
+Definition order_ok_for (fl : lang) (wf : bool) (s : sigma) (q : aq) : Prop :=
+  forall k, In k (s_order s) -> present q k = true /\ kind_ok fl wf q k = true.
+
+Lemma proc_cls_put : forall fl wf s q, case_rel (dir_word q) (s_dir_w s) ->
+  forall l pos acc, (forall k, In k l -> present q k = true /\ kind_ok fl wf q k = true) ->
+  proc_cls fl pos (map (rcl_of s q) l) acc = Ok (fold_left (fun a k => put s q k a) l acc).
+Proof.
+  intros fl wf s q CD. induction l as [|k l IH]; intros pos acc H; [reflexivity|].
+  cbn [map proc_cls fold_left]. change (rc_st (rcl_of s q k)) with (st_of s q k).
+  destruct (H k (or_introl eq_refl)) as [P K]. rewrite (apply_put fl wf s q k _ _ acc P K CD).
+  apply IH. intros k' Hk'. apply H. right. exact Hk'.
+Qed.
+
+Definition mem (k : ck) (l : list ck) : bool := existsb (ck_eqb k) l.
+
+Lemma fold_put : forall s q l acc,
+  fold_left (fun a k => put s q k a) l acc =
+  mkActions (a_with acc) (a_select acc) (a_top acc) (a_distinct acc) (a_distinct_count acc) (a_update acc)
+    (if mem CWhere l then q_where q else a_where acc)
+    (if mem COrder l then q_order q else a_order acc)
+    (if mem CGroup l then q_group q else a_group acc)
+    (if mem CLimit l then q_limit q else a_limit acc)
+    (if mem CExcept l then q_except q else a_except acc)
+    (if mem CJoin l then jact s q else a_join acc)
+    (if mem CFrom l then q_from q else a_from acc).
+Proof.
+  intros s q. induction l as [|k l IH]; intro acc; [destruct acc; reflexivity|].
+  cbn [fold_left]. rewrite IH. unfold mem. cbn [existsb].
+  destruct k; cbn [put ck_eqb orb a_with a_select a_top a_distinct a_distinct_count a_update a_where a_order a_group a_limit a_except a_join a_from];
+    f_equal;
+    match goal with |- (if ?b then _ else _) = _ => destruct b; reflexivity end.
+Qed.
+
+Lemma mem_In : forall k l, mem k l = true <-> In k l.
+Proof.
+  intros k l. unfold mem. rewrite existsb_exists. split.
+  - intros [x [Ix E]]. destruct k, x; try discriminate E; exact Ix.
+  - intro I. exists k. split; [exact I | destruct k; reflexivity].
+Qed.
+
+Definition acc0 : actions := mkActions None None None false false None None None None None None None None.
+
+Lemma fold_put_all : forall s q l, (forall k, In k l <-> present q k = true) ->
+  fold_left (fun a k => put s q k a) l (head_put (q_kind q) acc0) = actions_of s q.
+Proof.
+  intros s q l H. rewrite fold_put.
+  assert (M : forall k, mem k l = present q k).
+  { intro k. destruct (present q k) eqn:P; [apply mem_In, H; exact P|].
+    destruct (mem k l) eqn:E; [|reflexivity]. apply mem_In, H in E. rewrite E in P. discriminate P. }
+  rewrite !M. unfold actions_of, jact. cbn [present].
+  destruct (q_kind q) as [top d c sel|asg]; cbn [head_put acc0 a_with a_select a_top a_distinct a_distinct_count a_update a_where a_order a_group a_limit a_except a_join a_from];
+    destruct (q_where q), (q_order q), (q_group q), (q_limit q), (q_except q), (q_join q) as [[? ?]|], (q_from q); try destruct top; reflexivity.
+Qed.
+
+(* ------------------------------------------------------------------ the end of the text: strip(' ') and the WITH regex *)
+Lemma span_by_stop : forall f u a d b Y, span_by f u = (a, d :: b) -> span_by f (u ++ Y) = (a, d :: b ++ Y).
+Proof.
+  intros f. induction u as [|c u IH]; intros a d b Y H; [discriminate H|]. cbn [app span_by] in *.
+  destruct (f c).
+  - destruct (span_by f u) as [a' b'] eqn:E. injection H as <- ->. rewrite (IH a' d b Y eq_refl). reflexivity.
+  - injection H as <- <- <-. reflexivity.
+Qed.
+
+Definition end_ok (T : str) : bool :=
+  match rev T with d :: _ => negb (is_sp d) | [] => false end.
+
+Lemma with_match_none : forall fl pre T, end_ok T = true -> wt_ok T = true -> with_match fl (pre ++ SP :: T) = None.
+Proof.
+  intros fl pre T E W. unfold with_match. rewrite rev_app_distr. cbn [rev]. rewrite <- !app_assoc. cbn [app].
+  unfold end_ok, wt_ok in *. destruct (rev T) as [|c r1]; [discriminate E|]. apply negb_true_iff in E.
+  cbn [app]. rewrite (drop_sp_nonsp c _ E). cbn [eat_ch]. destruct (N.eqb c RPAR); [|reflexivity].
+  destruct (span_by is_lower r1) as [nm r2] eqn:S. destruct r2 as [|d r2]; [discriminate W|].
+  rewrite (span_by_stop is_lower r1 nm d r2 _ S). apply negb_true_iff in W.
+  destruct (Nat.leb 4 (length nm) && Nat.leb (length nm) 20) eqn:LN; [|reflexivity]. cbn [eat_ch].
+  destruct (N.eqb d LPAR); [|reflexivity]. cbn [andb] in W. apply andb_true_iff in LN. destruct LN as [L1 L2].
+  rewrite L1, L2 in W. discriminate W.
+Qed.
+
+Lemma strip_sp_id : forall x c t, x = c :: t -> is_sp c = false -> end_ok x = true -> strip_sp x = x.
+Proof.
+  intros x c t -> N E. unfold strip_sp, strip_by, rstrip_by. cbn [lstrip_by]. rewrite N. unfold end_ok in E.
+  destruct (rev (c :: t)) as [|d r] eqn:R; [discriminate E|]. apply negb_true_iff in E. cbn [lstrip_by]. rewrite E.
+  rewrite <- R. apply rev_involutive.
+Qed.
+
+Lemma end_ok_app : forall pre T, end_ok T = true -> end_ok (pre ++ T) = true.
+Proof. intros pre T E. unfold end_ok in *. rewrite rev_app_distr. destruct (rev T); [discriminate E | exact E]. Qed.
+
+Lemma sps_S_app : forall n (x : str), sps (S n) ++ x = sps n ++ SP :: x.
+Proof. intros n x. change (sps (S n) ++ x) with (SP :: sps n ++ x). apply sps_comm. Qed.
+
+Lemma cls_last : forall cs pre0 T0, exists pre T,
+  pre0 ++ SP :: T0 ++ render_cls cs = pre ++ SP :: T /\ ((T = T0 /\ cs = []) \/ exists c, In c cs /\ T = rc_txt c).
+Proof.
+  induction cs as [|c r IH]; intros pre0 T0.
+  - exists pre0, T0. split; [cbn [render_cls]; rewrite app_nil_r; reflexivity | left; split; reflexivity].
+  - destruct (IH (pre0 ++ SP :: T0 ++ sps (rc_lead c) ++ SP :: rc_kw c ++ sps (rc_sp c)) (rc_txt c)) as [pre [T [E H]]].
+    exists pre, T. split.
+    + rewrite <- E. cbn [render_cls]. unfold render_cl. rewrite (sps_S_app (rc_sp c)).
+      rewrite <- !app_assoc. cbn [app]. rewrite <- !app_assoc. cbn [app]. rewrite <- !app_assoc. reflexivity.
+    + right. destruct H as [[-> ->]|[c' [I ->]]]; [exists c; split; [left; reflexivity | reflexivity] | exists c'; split; [right; exact I | reflexivity]].
+Qed.
+
+Lemma render_q_last : forall hw hk ht cs, exists pre T,
+  render_q hw hk ht cs = pre ++ SP :: T /\ ((T = ht /\ cs = []) \/ exists c, In c cs /\ T = rc_txt c).
+Proof.
+  intros hw hk ht cs. destruct (cls_last cs (hw ++ sps hk) ht) as [pre [T [E H]]]. exists pre, T. split; [|exact H].
+  rewrite <- E. unfold render_q. rewrite (sps_S_app hk). rewrite <- !app_assoc. reflexivity.
+Qed.
